@@ -46,7 +46,8 @@ def make(case, weights=True):
     if not g["edges"]:
         # a link attribute cannot exist on a network without links
         case = dict(case, W=None)
-    net = Network(adjacency=A, directed=g["directed"], node_weights=w,
+    net = Network(adjacency=G.represent_adj(A), directed=g["directed"],
+                  node_weights=G.represent_weights(w),
                   silence_level=3)
     if case.get("W") is not None:
         net.set_link_attribute("len", np.array(case["W"], dtype=float))
